@@ -105,44 +105,37 @@ Theorem C12_time2idx_identity : forall xs, strictly_asc xs = true ->
 Proof. exact time2idx_identity. Qed.
 Print Assumptions C12_time2idx_identity.
 
-(* ---- 365_day / 366_day calendars.  Proved sub-domain: reference Jan 1 00:00:00 UTC, unit days /
-   hours / minutes, every value a whole number of days, every true date representable as a datetime
-   (missing: time of day, 'seconds', any other reference date, Feb 29 of a common year) *)
-Theorem C12_cf_fixed_calendar_partial : forall leap u r vals sp,
-  dom_fixed u r vals = true ->
+(* ---- 365_day / 366_day calendars (branch repaired by fixes/C12-fixed-calendars.patch), full strength:
+   both calendars, every unit, every reference date, time of day and zone, every series length.
+   Whenever decoding returns, every row denotes ref + value * unit IN THE FILE'S CALENDAR and is a date a
+   datetime can hold (Feb 29 of a common year makes the call raise instead of returning a shifted date) *)
+Theorem C12_cf_fixed_calendar : forall leap u r vals out,
+  impl_cf_fixed leap u r vals = Some out ->
+  exists p k, impl_parse r = Some p /\ fx_unit_us64 leap u = Some k
+    /\ all_some (map (fixed_us_of_fields leap) out) = Some (map (fun n => fixed_ref_us leap p + n * k) vals)
+    /\ forallb row_ok out = true.
+Proof. exact cf_fixed_correct. Qed.
+Print Assumptions C12_cf_fixed_calendar.
+
+(* the civil fields of the fixed-length calendars denote their instant (day count <-> (y, m, d) inverse) *)
+Theorem C12_fixed_fields_denote_instant : forall leap t,
+  fixed_us_of_fields leap (fixed_fields leap t) = Some t.
+Proof. exact fixed_us_of_fixed_fields. Qed.
+Print Assumptions C12_fixed_fields_denote_instant.
+
+(* for the CF units (days, hours, minutes, seconds, weeks) the result is the specification ... *)
+Theorem C12_cf_fixed_matches_spec : forall leap u r vals out,
+  match u with UYears => False | _ => True end ->
+  impl_cf_fixed leap u r vals = Some out -> spec_cf_fixed leap u r vals = Some out.
+Proof. exact cf_fixed_spec. Qed.
+Print Assumptions C12_cf_fixed_matches_spec.
+
+(* ... and decoding does return whenever every true date is one a datetime can hold *)
+Theorem C12_cf_fixed_returns : forall leap u r vals sp,
   spec_cf_fixed leap u r vals = Some sp -> forallb row_ok sp = true ->
   impl_cf_fixed leap u r vals = Some sp.
-Proof. exact cf_fixed_partial. Qed.
-Print Assumptions C12_cf_fixed_calendar_partial.
-
-(* FULL statement (impl = spec whenever both return) is false of the faithful model, four ways: *)
-Definition fixed_differs (leap : bool) (u : unit_t) (r : refdate) (vals : list Z) : Prop :=
-  exists out sp, impl_cf_fixed leap u r vals = Some out /\ spec_cf_fixed leap u r vals = Some sp
-                 /\ forallb row_ok sp = true /\ out <> sp.
-
-(* 'hours since 2000-01-01', noleap, 1 -> 00:00 instead of 01:00 (time of day dropped) *)
-Theorem C12_cf_fixed_timeofday_refuted : fixed_differs false UHours (Ref SpD 2000 1 1 0 0 0 0) [64].
-Proof. eexists; eexists. vm_compute. repeat split; try reflexivity. discriminate. Qed.
-Print Assumptions C12_cf_fixed_timeofday_refuted.
-
-(* 'seconds since 2000-01-01', noleap, 86400 -> 2000-03-01 instead of 2000-01-02 ('seconds' scaled as minutes) *)
-Theorem C12_cf_fixed_seconds_refuted : fixed_differs false USeconds (Ref SpD 2000 1 1 0 0 0 0) [5529600].
-Proof. eexists; eexists. vm_compute. repeat split; try reflexivity. discriminate. Qed.
-Print Assumptions C12_cf_fixed_seconds_refuted.
-
-(* 'days since 1999-03-01', 366_day, 0 -> 1998-11-02 (reference not Jan 1: offset applied backwards) *)
-Theorem C12_cf_fixed_refdate_refuted : fixed_differs true UDays (Ref SpD 1999 3 1 0 0 0 0) [0].
-Proof. eexists; eexists. vm_compute. repeat split; try reflexivity. discriminate. Qed.
-Print Assumptions C12_cf_fixed_refdate_refuted.
-
-(* 'days since 2001-01-01', all_leap, [59, 60]: Feb 29 2001 is not a datetime, the fallback then puts
-   EVERY element on the real calendar: 60 -> 2001-03-02 instead of 2001-03-01 *)
-Theorem C12_cf_fixed_feb29_refuted : exists out sp,
-  impl_cf_fixed true UDays (Ref SpD 2001 1 1 0 0 0 0) [3776; 3840] = Some out
-  /\ spec_cf_fixed true UDays (Ref SpD 2001 1 1 0 0 0 0) [3776; 3840] = Some sp
-  /\ nth 1 sp [] = [2001; 3; 1; 0; 0; 0; 0] /\ nth 1 out [] = [2001; 3; 2; 0; 0; 0; 0].
-Proof. eexists; eexists. vm_compute. repeat split; reflexivity. Qed.
-Print Assumptions C12_cf_fixed_feb29_refuted.
+Proof. exact cf_fixed_total. Qed.
+Print Assumptions C12_cf_fixed_returns.
 
 (* ---- non-vacuity *)
 Example C12_cf_standard_inhabited :
@@ -162,12 +155,18 @@ Example C12_sdate_inhabited :
      = Some [[1999; 12; 31; 23; 0; 0; 0]; [2000; 1; 2; 0; 0; 0; 0]; [2000; 1; 3; 1; 0; 0; 0]].
 Proof. vm_compute. split; reflexivity. Qed.
 
-Example C12_fixed_partial_inhabited :
-  dom_fixed UHours (Ref SpHMS 1900 1 1 0 0 0 0) [24 * 64 * 59; 24 * 64 * 36500] = true
-  /\ impl_cf_fixed false UHours (Ref SpHMS 1900 1 1 0 0 0 0) [24 * 64 * 59; 24 * 64 * 36500]
-     = Some [[1900; 3; 1; 0; 0; 0; 0]; [2000; 1; 1; 0; 0; 0; 0]]
-  /\ spec_cf_fixed false UHours (Ref SpHMS 1900 1 1 0 0 0 0) [24 * 64 * 59; 24 * 64 * 36500]
-     = Some [[1900; 3; 1; 0; 0; 0; 0]; [2000; 1; 1; 0; 0; 0; 0]].
+(* the four former defect inputs now decode to the true dates: time of day kept, 'seconds' are seconds,
+   a reference that is not Jan 1, all_leap around Feb 29 of a common year (raises instead of shifting) *)
+Example C12_fixed_inhabited :
+  impl_cf_fixed false UHours (Ref SpD 2000 1 1 0 0 0 0) [0; 64; 1600]
+    = Some [[2000; 1; 1; 0; 0; 0; 0]; [2000; 1; 1; 1; 0; 0; 0]; [2000; 1; 2; 1; 0; 0; 0]]
+  /\ impl_cf_fixed false USeconds (Ref SpD 2000 1 1 0 0 0 0) [5529600] = Some [[2000; 1; 2; 0; 0; 0; 0]]
+  /\ impl_cf_fixed true UDays (Ref SpD 1999 3 1 0 0 0 0) [0] = Some [[1999; 3; 1; 0; 0; 0; 0]]
+  /\ impl_cf_fixed true UDays (Ref SpD 2001 1 1 0 0 0 0) [3712; 3840]
+      = Some [[2001; 2; 28; 0; 0; 0; 0]; [2001; 3; 1; 0; 0; 0; 0]]
+  /\ impl_cf_fixed true UDays (Ref SpD 2001 1 1 0 0 0 0) [3776; 3840] = None
+  /\ spec_cf_fixed true UDays (Ref SpD 2001 1 1 0 0 0 0) [3776; 3840]
+      = Some [[2001; 2; 29; 0; 0; 0; 0]; [2001; 3; 1; 0; 0; 0; 0]].
 Proof. vm_compute. repeat split; reflexivity. Qed.
 
 Example C12_time2idx_inhabited :
